@@ -801,6 +801,13 @@ def map_method(self, box, v, name, args):
     return dflt
   if name == 'copy':
     return self.new_box(SV(s, v.t))
+  if name == 'setdefault':
+    k = self.coerce(args[0], s.key)
+    if self.decide(s.has(v.t, k.t), 'setdefault'):
+      return SV(s.val, s.get(v.t, k.t))
+    dflt = self.coerce(args[1] if len(args) > 1 else NONEV, s.val)
+    self.mutate(box, self.map_set(v, k, dflt))
+    return dflt
   if name == 'pop':
     k = self.coerce(args[0], s.key)
     if len(args) > 1:
